@@ -77,6 +77,10 @@ CHECKS = {
    technique="property-based metamorphic testing (rapid): one abstract web URL rendered in two independently drawn equivalent spellings (and a plain one) must canonicalize to one string under generated profiles",
    text="An abstract ordinary web URL is rendered twice with independent random choices among exactly the variations the statement lists, per profile class; both canonical strings must be equal and equal to the canonical form of the plain rendering, which ties the class to one representative.",
    ref="DESIGN.md §6 C18", note="trusted base: the grammar and renderer in harness/props/web.go, rapid; findings KF-C18-empty-fragment and KF-C18-nested-dots attributed by counterfactual classifiers"),
+ "C02": dict(
+   technique="stateful property-based testing / robustness fuzzing (rapid): generated configurations x generated API programs over a register file of URLs, recover() around every step, (nil, nil) contract, hang watchdog confirmed in a fresh process",
+   text="A configuration (predefined profile, or 0..6 of 25 options with valued options from families incl. special-scheme maps without file, encoding overrides, generated encode sets, total host callbacks) and a program (initial parse with hostile / arbitrary / very long arguments, then up to 12 setter, resolve, clone, SearchParams, SetSearchParams, encode/decode and profile operations) are executed with all getters called after every step; any panic, (nil, nil) result or non-returning call is a violation.",
+   ref="DESIGN.md §6 C02, §7.8", note="trusted base: recover()/watchdog harness in harness/props/c02.go and harness/core, rapid"),
 }
 
 NOT_YET = {}
